@@ -415,6 +415,12 @@ pub fn run<P: Property>(prop: &P, tier: Tier, seed: u64, replay: Option<PathBuf>
                         }
                         let mut st = stats.lock().unwrap();
                         st.absorb(&o);
+                        if let Verdict::Inconclusive(w) = &o.verdict {
+                            if st.inconclusive.len() <= 3 {
+                                let p = write_replay(id, seed, &case, "inconclusive", w);
+                                eprintln!("[{}] inconclusive case saved: {}", id, p.display());
+                            }
+                        }
                         if let Verdict::Fail { sig, msg } = &o.verdict {
                             if let Some(k) = known_match(known, id, sig) {
                                 let e = st.known_hits.entry(sig.clone()).or_insert((0, k.what.clone()));
